@@ -429,6 +429,14 @@ func (cs *State) startRoutines(maxSteps int) {
 
 // loadWalFile loads WAL data from file. It overwrites cs.wal.
 func (cs *State) loadWalFile() error {
+	// A crash can leave part of a record at the end of the log. Nothing may be
+	// appended behind it: what is written (and synced) there cannot be read back, and
+	// the repair after a failed replay throws it away.
+	if err := cs.repairTornWalFile(cs.config.WalFile()); err != nil {
+		cs.Logger.Error("failed to check state WAL", "err", err)
+		return err
+	}
+
 	wal, err := cs.OpenWAL(cs.config.WalFile())
 	if err != nil {
 		cs.Logger.Error("failed to load state WAL", "err", err)
@@ -437,6 +445,39 @@ func (cs *State) loadWalFile() error {
 
 	cs.wal = wal
 	return nil
+}
+
+// repairTornWalFile cuts the WAL head file back to its decodable prefix if it
+// does not end at a record boundary (the damaged file is kept as .CORRUPTED).
+func (cs *State) repairTornWalFile(walFile string) error {
+	in, err := os.Open(walFile)
+	if os.IsNotExist(err) {
+		return nil
+	}
+	if err != nil {
+		return err
+	}
+	var (
+		dec    = NewWALDecoder(in)
+		decErr error
+	)
+	for decErr == nil {
+		_, decErr = dec.Decode()
+	}
+	in.Close()
+	if decErr == io.EOF {
+		return nil
+	}
+	if !IsDataCorruptionError(decErr) {
+		return decErr
+	}
+
+	cs.Logger.Error("the WAL file does not end with a complete record; repairing it before it is opened", "err", decErr)
+	corruptedFile := fmt.Sprintf("%s.CORRUPTED", walFile)
+	if err := tmos.CopyFile(walFile, corruptedFile); err != nil {
+		return err
+	}
+	return repairWalFile(corruptedFile, walFile)
 }
 
 // OnStop implements service.Service.
